@@ -386,6 +386,7 @@ func buildAndVerify(vc vcase) VObs {
 	ctx := context.Background()
 	required := metaMap(in.Required, vc.sigMut)
 	mt := mediaTypeOf(vc.format)
+	inputsModified := false
 	panicked, msg := guarded(func() {
 		if vc.sigMut%3 == 1 {
 			// the verifier has been used before: another, valid signature of the same signer over ANOTHER artifact, carrying
@@ -420,6 +421,18 @@ func buildAndVerify(vc vcase) VObs {
 			}
 			fx.resetLogs()
 		}
+		// a verification reads its inputs and leaves them as they were: the caller's metadata map and the envelope bytes are
+		// compared with copies afterwards (a caller checks several signatures against one map)
+		requiredCopy := map[string]string{}
+		for k, val := range required {
+			requiredCopy[k] = val
+		}
+		envCopy := append([]byte{}, env...)
+		defer func() {
+			if !mapsEqual(required, requiredCopy) || string(env) != string(envCopy) {
+				inputsModified = true
+			}
+		}()
 		if in.API == "Verify" {
 			desc := fx.presentedDesc(digest.SHA256)
 			outcome, verr = v.Verify(ctx, desc, env, notation.VerifierVerifyOptions{
@@ -443,7 +456,10 @@ func buildAndVerify(vc vcase) VObs {
 	}
 
 	// ----- observe ----------------------------------------------------------
-	if verr == nil {
+	if inputsModified {
+		obs.Verdict = "inputs-modified"
+		obs.ErrText = "the call changed the caller's metadata map or the envelope bytes"
+	} else if verr == nil {
 		obs.Verdict = "success"
 	} else {
 		obs.Verdict = "fail"
@@ -536,6 +552,7 @@ func classifyRevocation(err error, ch *Chain) (string, int) {
 // ---- fixture -----------------------------------------------------------------
 
 type vfixture struct {
+	format           string
 	in               VIn
 	scheme           signature.SigningScheme
 	chain            *Chain
@@ -857,8 +874,15 @@ func (fx *vfixture) payload() []byte {
 		d := ocispec.Descriptor{MediaType: mtA, Digest: digestOf(fx.hashAlg, blobA), Size: int64(len(blobA))}
 		good, _ := json.Marshal(d)
 		body := string(good[:len(good)-1])
-		return []byte([]string{`{"targetArtifact":"not-a-descriptor"}`, `{"targetArtifact":` + body + `,"annotations":{"buildId":101}}}`,
-			`{"targetArtifact":` + body + `,"urls":"https://example.com/x"}}`, `{"targetArtifact":` + body + `,"annotations":["a","b"]}}`}[fx.payloadSalt%4])
+		forms := []string{`{"targetArtifact":"not-a-descriptor"}`, `{"targetArtifact":` + body + `,"annotations":{"buildId":101}}}`,
+			`{"targetArtifact":` + body + `,"urls":"https://example.com/x"}}`, `{"targetArtifact":` + body + `,"annotations":["a","b"]}}`}
+		if fx.format == "cose" {
+			// (COSE carries the payload bytes verbatim) not ONE document: a well-formed payload for this very artifact followed by
+			// another document, by text, by a stray value
+			other := `{"targetArtifact":{"mediaType":"` + mtA + `","digest":"sha256:` + strings.Repeat("ab", 32) + `","size":7}}`
+			forms = append(forms, `{"targetArtifact":`+string(good)+`}`+other, `{"targetArtifact":`+string(good)+"}\ntrailing text", `{"targetArtifact":`+string(good)+`} 0`)
+		}
+		return []byte(forms[fx.payloadSalt%len(forms)])
 	}
 	d := ocispec.Descriptor{MediaType: mtA, Digest: digestOf(fx.hashAlg, blobA), Size: int64(len(blobA))}
 	if fx.in.Desc.MT == "unsigned" {
@@ -908,6 +932,7 @@ func (fx *vfixture) envelope(vc vcase) []byte {
 	for _, a := range fx.extAttrs {
 		attrKey += fmt.Sprintf("%v=%v/%v;", a.Key, a.Value, a.Critical)
 	}
+	fx.format = vc.format
 	payload := fx.payload()
 	ph := sha256.Sum256(payload)
 	key := strings.Join([]string{vc.format, string(fx.scheme), fx.chainKey, fmt.Sprint(fx.signingTime), fmt.Sprint(fx.expiry), attrKey, ct, hex.EncodeToString(ph[:8])}, "|")
